@@ -658,6 +658,13 @@ def snapshot(x, cold=False):
             put("hash", lambda: hash(x))
             put("sig", lambda: ops.expr_signature(x))
             put("str", lambda: _sha(str(x)))
+    elif isinstance(x, Form) and _huge(x):
+        # fully lowered 3D forms (tens of thousands of nodes): every from-scratch
+        # recomputation costs seconds; only the cached observables are followed
+        if not cold:
+            put("hash", lambda: hash(x))
+            put("sig", lambda: x.signature())
+        put("meta", lambda: ops.obs("meta", x))
     elif isinstance(x, Form):
         fresh = {}
 
@@ -715,6 +722,20 @@ def snapshot(x, cold=False):
     elif isinstance(x, (set, list)):
         put("items", lambda: sorted(repr(v) for v in x) if isinstance(x, set) else [repr(v) for v in x])
     return s
+
+
+def _huge(form, limit=6000):
+    seen = set()
+    stack = [itg.integrand() for itg in form.integrals()]
+    while stack:
+        n_ = stack.pop()
+        if id(n_) in seen:
+            continue
+        seen.add(id(n_))
+        if len(seen) > limit:
+            return True
+        stack.extend(n_.ufl_operands)
+    return False
 
 
 def _fresh_args(form):
